@@ -5,7 +5,7 @@
 From Coq Require Import String.
 From Coq Require Import List Arith Lia Bool ZArith Permutation Ring.
 From NV.Lib Require Import RingMat.
-From NV.C01 Require Import Model Exec Proofs ProofsZ CMap CMapProofs Axes AxesProofs ProductN.
+From NV.C01 Require Import Model Exec Proofs ProofsZ CMap CMapProofs Axes AxesProofs ProductN Batch.
 Import ListNotations.
 
 Section Generic.
@@ -142,6 +142,16 @@ Section Generic.
     cnames (adom p) = flat_map (fun a => cnames (adom a)) affs /\
     cnames (arng p) = flat_map (fun a => cnames (arng a)) affs.
   Proof. exact (productN_blockwise R r0 r1 radd rmul rsub ropp reqb Rth reqb_spec). Qed.
+  (* Evaluation on a batch of points of ANY shape (..., nin): the value at every batch position is
+     the map applied to the point at that position (rows in C order, whatever the leading shape) *)
+  Theorem batch_evaluation_is_pointwise : forall a rows flat out,
+    WFr a -> batch_apply R r0 r1 radd rmul a rows flat = Ok out ->
+    chunks (cs_ndim (arng a)) rows out =
+      map (Happly (amat a)) (chunks (cs_ndim (adom a)) rows flat) /\
+    forall k, k < rows ->
+      nth k (chunks (cs_ndim (arng a)) rows out) [] =
+      Happly (amat a) (nth k (chunks (cs_ndim (adom a)) rows flat) []).
+  Proof. exact (batch_apply_pointwise R r0 r1 radd rmul). Qed.
 End Generic.
 
 Print Assumptions compose_apply.
@@ -156,6 +166,7 @@ Print Assumptions append_axis_leaves_rest_untouched.
 Print Assumptions shifted_domain_origin_apply.
 Print Assumptions shifted_range_origin_apply.
 Print Assumptions product_of_any_number_of_maps_acts_blockwise.
+Print Assumptions batch_evaluation_is_pointwise.
 Print Assumptions drop_axis_leaves_rest_untouched.
 Print Assumptions dropped_axis_pair_is_isolated.
 Print Assumptions drop_output_only_leaves_rest_untouched.
